@@ -209,6 +209,9 @@ class Facts:
         for x in self.even:
             if x.eq(e):
                 return True
+        ent, flip = self.lookup(alg.fn("mod", e, alg.const(2)))
+        if ent is not None and not flip and ent[1] <= {"0", "-"}:
+            return True  # a dominating guard established e % 2 == 0
         # sums of even things
         if e.is_poly():
             ok = True
@@ -662,6 +665,7 @@ class Interp:
                 env[k] = Unknown("loop %d: transfer of %s not linear in the carried state" % (L.id, k))
             self.event("loop-nonlinear", L.node, state)
             return
+        L.sig = loop_signature([M[(r, c)].subs({L.ivar: (IOTA() - L.rng.start) / L.rng.step}) for r in state for c in state])
         ident = all(M[(r, c)].eq(ONE if r == c else ZERO) for r in state for c in state)
         homog = all(b[r].is_zero() for r in state)
         L.kind = "accumulate" if ident else ("linear" if homog else "affine")
@@ -683,7 +687,7 @@ class Interp:
                             continue
                         if not isinstance(icv, Expr):
                             return None
-                        tot = tot + alg.fn("Phi", alg.const(L.id), r, c, level) * icv
+                        tot = tot + phi_atom(L.sig, state.index(r), state.index(c), level) * icv
                     out[r] = tot
                 else:
                     return None
@@ -701,19 +705,9 @@ class Interp:
         self._resolve_level_placeholders(L, env)
 
     def _psum(self, L, term, upto):
-        """sum_{i<upto} term(i), loop-invariant factors pulled out of opaque Sum atoms"""
-        tot = ZERO
-        iv = L.ivar
-        for m, c in term.n.items():
-            inv, dep = [], []
-            for a, e in m:
-                if a is iv or iv in alg.atom_expr(a).atoms() or (isinstance(e, Expr) and iv in e.atoms()):
-                    dep.append((a, e))
-                else:
-                    inv.append((a, e))
-            depx = Expr({tuple(dep): alg.C1})
-            tot = tot + Expr({tuple(inv): c}) * alg.fn("Sum", alg.const(L.id), depx, upto)
-        return tot
+        return psum(term, L.ivar, L.rng.start, upto)
+
+
 
     def _resolve_level_placeholders(self, L, env):
         if not L.level_stores:
@@ -1329,6 +1323,23 @@ EXT_CONSTS = {
 }
 
 
+def psum(term, iv, start, upto):
+    """sum_{start <= i < upto} term(i); loop-invariant factors are pulled out
+    of the opaque Sum atoms (so sums are linear in invariant quantities)"""
+    tot = ZERO
+    term = term.expand()
+    for m, c in term.n.items():
+        inv, dep = [], []
+        for a, e in m:
+            if a is iv or iv in alg.atom_expr(a).atoms() or (isinstance(e, Expr) and iv in e.atoms()):
+                dep.append((a, e))
+            else:
+                inv.append((a, e))
+        depx = Expr({tuple(dep): alg.C1})
+        tot = tot + Expr({tuple(inv): c}) * sum_atom(depx.subs({iv: IOTA()}), start, upto)
+    return tot
+
+
 class BoolCombo:
     def __init__(self, op, items):
         self.op, self.items = op, items
@@ -1378,6 +1389,55 @@ class LoopSummary:
         self.linear = False
         self.kind = None
         self.ivar = None
+
+
+_SIGS = []
+
+
+def IOTA():
+    """canonical bound variable for loop-summary atoms (node index)"""
+    return alg.sym("iota", integer=True)
+
+
+def loop_signature(entries):
+    """value number of a linear loop body: equal matrices (as functions of the
+    node index) get the same propagator atoms"""
+    for k, ent in enumerate(_SIGS):
+        if len(ent) == len(entries) and all(a.eq(b) for a, b in zip(ent, entries)):
+            return k + 1
+    _SIGS.append(list(entries))
+    return len(_SIGS)
+
+
+def signature_entries(sig):
+    return _SIGS[sig - 1]
+
+
+def phi_atom(sig, r, c, level):
+    """entry (r, c) of the product of the layer matrices of nodes 0..level-1"""
+    level = as_expr(level)
+    if level.is_zero():
+        return ONE if r == c else ZERO
+    return alg.fn("Phi", alg.const(sig), alg.const(r), alg.const(c), level)
+
+
+def sum_atom(summand, start, upto):
+    if (as_expr(upto) - as_expr(start)).is_zero():
+        return ZERO
+    return alg.fn("Sum", summand, start, upto)
+
+
+def _rb_phi(sig, r, c, level):
+    return phi_atom(int(sig.as_const().re), int(r.as_const().re), int(c.as_const().re), level)
+
+
+alg.register_rebuild("Phi", _rb_phi)
+alg.register_rebuild("Sum", sum_atom)
+
+
+def reset_state():
+    alg.reset()
+    del _SIGS[:]
 
 
 def _assigned_names(stmts):
